@@ -387,6 +387,8 @@ KInit == TCls("KInit", << Fld("s_a", TInt, NoDef), FldX("s_b", TStr, DefVal(MkSt
                           Fld("s_c", TInt, NoDef) >>, <<"struct", "tuple">>, "struct")
 KInitT == TCls("KInitT", << Fld("s_a", TInt, NoDef), FldX("s_b", TStr, DefVal(MkStr("s_empty")), "F", <<"s_b">>, "s_b", "T", "F"),
                             Fld("s_c", TFloat, NoDef) >>, <<"struct", "tuple">>, "tuple")
+KInitFac == TCls("KInitFac", << Fld("s_a", TInt, NoDef), FldX("s_b", TListI, DefFac(MkList(<<>>)), "F", <<"s_b">>, "s_b", "T", "F"),
+                                Fld("s_c", TInt, DefVal(MkInt(5))) >>, <<"struct", "tuple">>, "struct")
 KFac == TCls("KFac", << Fld("s_a", TInt, NoDef), Fld("s_b", TListI, DefFac(MkList(<<>>))),
                         Fld("s_c", TSeq("set", TInt), DefFac([k |-> "set", f |-> "set", es |-> <<>>])) >>, <<"struct", "tuple">>, "struct")
 KHook == [TCls("KHook", << Fld("s_a", TInt, NoDef), Fld("s_b", TInt, DefVal(MkInt(5))) >>, <<"struct", "tuple">>, "struct")
@@ -401,7 +403,7 @@ KTupKw == TCls("KTupKw", << Fld("s_a", TInt, NoDef), FldX("s_b", TInt, DefVal(Mk
 KNest == TCls("KNest", << Fld("s_a", KAlias, NoDef), Fld("s_b", TSeq("list", KTup), DefFac(MkList(<<>>))) >>, <<"struct", "tuple">>, "struct")
 KOpt == TCls("KOpt", << Fld("s_a", TOpt(TInt), DefVal(MkInt(5))), Fld("s_b", TUnion(<<TInt, TStr>>), DefVal(MkInt(5))) >>,
              <<"struct", "tuple">>, "struct")
-ClsLeaves == { KAlias, KInNames, KRenameF, KExcl, KKw, KInit, KInitT, KFac, KHook, KHookF, KExtra, KTup, KTupKw, KNest, KOpt }
+ClsLeaves == { KAlias, KInNames, KRenameF, KExcl, KKw, KInit, KInitT, KInitFac, KFac, KHook, KHookF, KExtra, KTup, KTupKw, KNest, KOpt }
 
 (* C15: the naming rules.  A class is written with a SPELLING (class-level rename styles, per-field    *)
 (* rename / aliases / in_names / out_name) and the rules below derive each field's input names and    *)
